@@ -280,6 +280,7 @@ func RunC03(c *core.Ctx) {
 		concN += int64(16 * rounds)
 	}
 	c.Add("concurrent_authorizations", concN)
+	ContractsStage(c)
 	nontrivial = granted
 	c.Set("evaluations", n*3)
 	c.Set("cases", n)
